@@ -213,9 +213,10 @@ type ReadResult struct {
 
 const sentinel = 0xEE
 
+// GetBuf / PutBuf pool read buffers by size.
 var bufPools sync.Map // size -> *sync.Pool
 
-func getBuf(n int) []byte {
+func GetBuf(n int) []byte {
 	p, _ := bufPools.LoadOrStore(n, &sync.Pool{})
 	if b, ok := p.(*sync.Pool).Get().([]byte); ok {
 		return b
@@ -223,7 +224,7 @@ func getBuf(n int) []byte {
 	return make([]byte, n)
 }
 
-func putBuf(b []byte) {
+func PutBuf(b []byte) {
 	p, _ := bufPools.LoadOrStore(len(b), &sync.Pool{})
 	p.(*sync.Pool).Put(b) //nolint
 }
@@ -239,14 +240,14 @@ func Drain(r io.Reader, pol ReadPolicy, max int) ReadResult {
 			maxSz = s
 		}
 	}
-	buf := getBuf(maxSz)
-	defer putBuf(buf)
+	buf := GetBuf(maxSz)
+	defer PutBuf(buf)
 	for {
 		sz := pol.Size(res.Calls)
 		p := buf[:sz]
 		lim := sz
-		if lim > 4096 {
-			lim = 4096
+		if lim > 64 {
+			lim = 64
 		}
 		for i := 0; i < lim; i++ {
 			p[i] = sentinel
